@@ -537,3 +537,62 @@ def bind_args(call: ast.Call, fn: ast.FunctionDef, skip_self: bool = False) -> d
         else:
             out[kw.arg] = kw.value
     return out
+
+
+# ---------------------------------------------------------------------------------------------
+# set-valued expressions (iteration order unspecified)
+# ---------------------------------------------------------------------------------------------
+
+
+def is_set_valued(repo: Repo, mod: str, expr: ast.AST, local_sets: set | None = None) -> bool:
+    """Syntactic inference: does ``expr`` evaluate to a set / frozenset?"""
+    local_sets = local_sets or set()
+    if isinstance(expr, (ast.Set, ast.SetComp)):
+        return True
+    if isinstance(expr, ast.Name):
+        if expr.id in local_sets:
+            return True
+        try:
+            v = repo.const(mod, expr.id) if expr.id in repo.modules[mod].assigns else repo._const_lookup(repo.modules[mod], expr.id)
+            return isinstance(v, (set, frozenset))
+        except Exception:
+            return False
+    if isinstance(expr, ast.Call):
+        d = dotted(expr.func)
+        if d in ("set", "frozenset"):
+            return True
+        if isinstance(expr.func, ast.Attribute) and expr.func.attr in ("union", "intersection", "difference", "symmetric_difference", "copy"):
+            return is_set_valued(repo, mod, expr.func.value, local_sets)
+        return False
+    if isinstance(expr, ast.BinOp) and isinstance(expr.op, (ast.BitOr, ast.BitAnd, ast.Sub, ast.BitXor)):
+        return is_set_valued(repo, mod, expr.left, local_sets) or is_set_valued(repo, mod, expr.right, local_sets)
+    if isinstance(expr, ast.IfExp):
+        return is_set_valued(repo, mod, expr.body, local_sets) or is_set_valued(repo, mod, expr.orelse, local_sets)
+    return False
+
+
+def unordered_iterations(repo: Repo, qual: str, fn: ast.FunctionDef) -> list[str]:
+    """for-loops and comprehensions (building ordered results) that iterate a set-valued expression."""
+    mod = qual.split(".")[0]
+    local_sets = set()
+    for n in ast.walk(fn):
+        if isinstance(n, ast.Assign) and len(n.targets) == 1 and isinstance(n.targets[0], ast.Name) and is_set_valued(repo, mod, n.value, local_sets):
+            local_sets.add(n.targets[0].id)
+    out = []
+    pm = parents(fn)
+    for n in ast.walk(fn):
+        it = None
+        if isinstance(n, ast.For):
+            it = n.iter
+        elif isinstance(n, ast.comprehension):
+            it = n.iter
+            # a comprehension feeding sorted()/set()/any()/all()/len()/sum()/min()/max() is order-free
+            comp = pm.get(n)
+            user = pm.get(comp) if comp is not None else None
+            if isinstance(comp, ast.SetComp):
+                continue
+            if isinstance(user, ast.Call) and dotted(user.func) in ("sorted", "set", "frozenset", "any", "all", "sum", "min", "max", "len"):
+                continue
+        if it is not None and is_set_valued(repo, mod, it, local_sets):
+            out.append("iteration over the set " + norm(it)[:70])
+    return out
